@@ -70,7 +70,10 @@ def count_stats(tree, block=4):
 
 def cfg_for(rep):
   c = dict(block_size=4, start_preconditioning_step=1, merge_small_dims_block_size=1, best_effort_shape_interpretation=False,
-           learning_rate=0.1, graft_type=1, skip_preconditioning_rank_lt=0)
+           learning_rate=0.1, graft_type=1, skip_preconditioning_rank_lt=0,
+           # well-conditioned roots: differently shaped batches compile to different reduction orders, and float32
+           # rounding differences are amplified by the conditioning of (S + dI); 1e-3 keeps them ~1e-7
+           matrix_epsilon=1e-3)
   if rep == "comp":
     c["compression_rank"] = 1
     c["block_size"] = 4
